@@ -44,9 +44,46 @@ class HarnessInternal(Exception):
     """an exception raised by harness code itself (not inside a call into numqi): never a failing input"""
 
 
+class ImplObservation(Exception):
+    """raised by harness code at the call boundary when a VALUE RETURNED BY THE IMPLEMENTATION is not of the documented kind (a verdict that
+    is not a bool, a `return_info=True` result that is not `(bool, [(dim0, dim1, norm), ...])`): an observation of the implementation.
+    `guarded` turns it into the value `error:<what>`, `safely` into a failing input; it is never classified as harness-internal"""
+
+
+def vbool(r):
+    """a verdict of a criterion: Python / numpy bool (0-dim bool arrays included); anything else (generator, array, None, tuple of the wrong
+    arity ...) is a defect of the implementation, reported with the input that produced it"""
+    if isinstance(r, (bool, np.bool_)):
+        return bool(r)
+    if isinstance(r, np.ndarray) and r.shape == () and r.dtype == np.bool_:
+        return bool(r)
+    raise ImplObservation(f'verdict-type:{type(r).__name__}')
+
+
+def vinfo(r):
+    """`is_generalized_ppt(..., return_info=True)`: documented as `(tag, [(dim0, dim1, nuclear_norm), ...])`"""
+    if not isinstance(r, tuple) or len(r) != 2:
+        n = f'[{len(r)}]' if hasattr(r, '__len__') else ''
+        raise ImplObservation(f'return_info-arity:{type(r).__name__}{n}')
+    tag = vbool(r[0])
+    out = []
+    try:
+        for x in r[1]:
+            d0, d1, v = x
+            out.append((tuple(int(i) for i in d0), tuple(int(i) for i in d1), float(v)))
+    except ImplObservation:
+        raise
+    except Exception as e:
+        raise ImplObservation(f'return_info-items:{type(e).__name__}') from None
+    return tag, out
+
+
 def is_impl_exception(e):
-    """True iff the traceback passes through numqi code (the exception was raised by, or below, the implementation)"""
+    """True iff the traceback passes through numqi code (the exception was raised by, or below, the implementation), or the exception is
+    the harness's own verdict on a value the implementation returned (ImplObservation)"""
     import traceback
+    if isinstance(e, ImplObservation):
+        return True
     for fr in traceback.extract_tb(e.__traceback__):
         fn = fr.filename.replace(os.sep, '/')
         if '/numqi/' in fn and '/verif/harness/' not in fn:
@@ -129,50 +166,110 @@ def _same_float(a, b):
     return (np.isnan(a) and np.isnan(b)) or a == b
 
 
-def extract_thresholds():
+# sizes on which the behavioural extraction is carried out: at least two per structural class (square / rectangular bipartite, >= 3 parties),
+# including (4,4) and (5,5); one size beyond in the thorough tier.  A constant is emitted only if EVERY size gives the same answer - a
+# change that is confined to some sizes ("eps with the wrong sign for d >= 4") makes the constant `other` / 0 and the obligation fail.
+EXTRACT_SIZES = dict(
+    quick=dict(psd=[1, 4, 16, 25], multi=[(2, 2), (2, 3), (3, 3), (4, 4), (5, 5), (2, 2, 2), (2, 3, 2)], square=[2, 3, 4, 5]),
+    thorough=dict(psd=[1, 4, 9, 16, 25, 36, 49], multi=[(2, 2), (2, 3), (3, 2), (3, 3), (2, 4), (4, 4), (5, 5), (6, 6), (2, 2, 2), (2, 3, 2), (3, 3, 3), (2, 2, 2, 2)],
+                  square=[2, 3, 4, 5, 6, 7]))
+
+
+def _consensus(vals, unknown):
+    vals = list(vals)
+    return vals[0] if vals and all(v == vals[0] for v in vals) else unknown
+
+
+def extract_thresholds(thorough=False):
     T = dict(isPptEpsDefault=None, isPptShiftCoeff=0, reductionEpsDefault=None, reductionShiftCoeff=0, psdShiftCoeff=0, psdCholesky=False,
              gpptThresholdDefault=None, gpptAcceptOp='other', gpptRhsOnePlusThreshold=False, gpptBreakOp='other', swapEpsDefault=None, swapOp='other',
+             isPptHermGuard=False, reductionHermGuard=False, negativityHermGuard=False,
              eofZeroShortcut=False, eofClampSqrtArg=False, eofSecondTermGuardLt1=False, eofRecognised=False, gmeClampSqrtArg=False,
              gmeRecognised=False, concPureClampSqrtArg=False, concPureRecognised=False)
+    SZ = EXTRACT_SIZES['thorough' if thorough else 'quick']
+    T['_sizes'] = {k: [list(x) if isinstance(x, tuple) else x for x in v] for k, v in SZ.items()}
+    T['_per_size'] = {}
+    tb = lambda f: _try(lambda: vbool(f()))            # a verdict that is not a bool counts as "not determined"
     try:
         import numqi
         E = numqi.entangle
         psd = numqi.utils.is_positive_semi_definite
-        Z1 = np.zeros((1, 1)); I1 = np.ones((1, 1))
         # utils.is_positive_semi_definite(M, shift): Cholesky of M + k*shift*1 (strictly positive definite)
-        up, dn = _try(lambda: bool(psd(Z1, shift=0.5))), _try(lambda: bool(psd(Z1, shift=-0.5)))
-        T['psdShiftCoeff'] = 1 if (up is True and dn is False) else (-1 if (up is False and dn is True) else 0)
-        T['psdCholesky'] = (_try(lambda: bool(psd(Z1, shift=0.0))) is False and _try(lambda: bool(psd(I1, shift=0.0))) is True
-                            and _try(lambda: bool(psd(-I1, shift=0.0))) is False)
+        ks, chol = [], []
+        for n in SZ['psd']:
+            Z, I = np.zeros((n, n)), np.eye(n)
+            up, dn = tb(lambda: psd(Z, shift=0.5)), tb(lambda: psd(Z, shift=-0.5))
+            ks.append(1 if (up is True and dn is False) else (-1 if (up is False and dn is True) else 0))
+            chol.append(tb(lambda: psd(Z, shift=0.0)) is False and tb(lambda: psd(I, shift=0.0)) is True and tb(lambda: psd(-I, shift=0.0)) is False)
+        T['psdShiftCoeff'] = _consensus(ks, 0)
+        T['psdCholesky'] = bool(_consensus(chol, False))
+        T['_per_size']['psdShiftCoeff'] = dict(zip(map(str, SZ['psd']), ks))
         # is_ppt / check_reduction_witness: shift = c*eps handed to the PSD test (zero matrix: accepted iff k*c*eps > 0)
-        Z4 = np.zeros((4, 4))
+        k = T['psdShiftCoeff']
         for key, f in (('isPpt', E.is_ppt), ('reduction', E.check_reduction_witness)):
             T[key + 'EpsDefault'] = _sig_default(f, 'eps')
-            a, b = _try(lambda: bool(f(Z4, (2, 2), eps=-0.5))), _try(lambda: bool(f(Z4, (2, 2), eps=0.5)))
-            k = T['psdShiftCoeff']
-            if k != 0 and a is True and b is False:
-                T[key + 'ShiftCoeff'] = -k           # k*c*(-0.5) > 0
-            elif k != 0 and a is False and b is True:
-                T[key + 'ShiftCoeff'] = k
+            cs_ = []
+            for dim in SZ['multi']:
+                Z = np.zeros((int(np.prod(dim)),) * 2)
+                a, b = tb(lambda: f(Z, dim, eps=-0.5)), tb(lambda: f(Z, dim, eps=0.5))
+                cs_.append(-k if (k != 0 and a is True and b is False) else (k if (k != 0 and a is False and b is True) else 0))   # k*c*(-0.5) > 0
+            T[key + 'ShiftCoeff'] = _consensus(cs_, 0)
+            T['_per_size'][key + 'ShiftCoeff'] = dict(zip(map(str, SZ['multi']), cs_))
         # is_generalized_ppt: verdict on single-entry matrices v*E_00 (every realignment has nuclear norm exactly |v|) as a function of (v, threshold)
         T['gpptThresholdDefault'] = _sig_default(E.is_generalized_ppt, 'threshold')
-        def gp(v, thr, **kw):
-            M = np.zeros((4, 4)); M[0, 0] = v
-            r = E.is_generalized_ppt(M, (2, 2), threshold=thr, **kw)
-            return r[0] if isinstance(r, tuple) else r
         grid = [(v, thr) for thr in (0.0, 0.5, 1.0) for v in (0.5, 1.0, 1.5, 2.0, 2.5)]
-        op = _op_from_truth(lambda v, y: gp(v, y - 1), [(v, 1 + thr) for v, thr in grid])
-        T['gpptAcceptOp'] = op
-        T['gpptRhsOnePlusThreshold'] = op != 'other'
-        # early exit (return_info=False) against the full evaluation (return_info=True): the break fires exactly when the final test fails
-        same = all(_try(lambda: bool(gp(v, thr)) == bool(gp(v, thr, return_info=True)), False) for v, thr in grid)
-        T['gpptBreakOp'] = {'le': 'gt', 'lt': 'ge', 'ge': 'lt', 'gt': 'le'}.get(op, 'other') if same else 'other'
-        # check_swap_witness: value of diag(x,0,0,0) is x
+        ops_, brk_ = [], []
+        for dim in SZ['multi']:
+            N = int(np.prod(dim))
+            def gp(v, thr, **kw):
+                M = np.zeros((N, N)); M[0, 0] = v
+                r = E.is_generalized_ppt(M, dim, threshold=thr, **kw)
+                return vinfo(r)[0] if kw.get('return_info') else vbool(r)
+            op = _op_from_truth(lambda v, y: gp(v, y - 1), [(v, 1 + thr) for v, thr in grid])
+            # early exit (return_info=False) against the full evaluation (return_info=True): the break fires exactly when the final test fails
+            same = all(_try(lambda: gp(v, thr) == gp(v, thr, return_info=True), False) for v, thr in grid)
+            ops_.append(op)
+            brk_.append({'le': 'gt', 'lt': 'ge', 'ge': 'lt', 'gt': 'le'}.get(op, 'other') if same else 'other')
+        T['gpptAcceptOp'] = _consensus(ops_, 'other')
+        T['gpptRhsOnePlusThreshold'] = T['gpptAcceptOp'] != 'other'
+        T['gpptBreakOp'] = _consensus(brk_, 'other')
+        T['_per_size']['gpptAcceptOp'] = dict(zip(map(str, SZ['multi']), ops_))
+        # check_swap_witness: value of diag(x,0,…,0) is x; value of x*|01><01| is 0
         T['swapEpsDefault'] = _sig_default(E.check_swap_witness, 'eps')
-        def sw(x, e):
-            M = np.zeros((4, 4)); M[0, 0] = x
-            return E.check_swap_witness(M, eps=e)
-        T['swapOp'] = _op_from_truth(sw, [(x, e) for e in (-0.5, 0.0, 0.5) for x in (-1.0, -0.5, 0.0, 0.5, 1.0)])
+        sw_ = []
+        for d in SZ['square']:
+            def sw(x, e):
+                M = np.zeros((d * d, d * d)); M[0, 0] = x
+                return vbool(E.check_swap_witness(M, eps=e))
+            def sw0(x, e):
+                M = np.zeros((d * d, d * d)); M[0, 0] = x; M[1, 1] = 7.0        # |01><01| contributes nothing to the swap value
+                return vbool(E.check_swap_witness(M, eps=e))
+            pairs = [(x, e) for e in (-0.5, 0.0, 0.5) for x in (-1.0, -0.5, 0.0, 0.5, 1.0)]
+            o1, o2 = _op_from_truth(sw, pairs), _op_from_truth(sw0, pairs)
+            sw_.append(o1 if o1 == o2 else 'other')
+        T['swapOp'] = _consensus(sw_, 'other')
+        T['_per_size']['swapOp'] = dict(zip(map(str, SZ['square']), sw_))
+        # Hermiticity guards (`assert np.abs(rho-rho.T.conj()).max() <(=) 1e-10`): every kind of non-Hermitian perturbation of size 1 and 1e-9
+        # is rejected (any exception), Hermitian input and a 1e-12 perturbation are accepted
+        def rejects(f, M):
+            try:
+                with np.errstate(all='ignore'):
+                    f(M)
+                return False
+            except Exception:
+                return True
+        for key, f, dims in (('isPptHermGuard', E.is_ppt, [(2, 2), (2, 3), (4, 4), (2, 2, 2)]), ('reductionHermGuard', E.check_reduction_witness, [(2, 2), (2, 3), (4, 4), (2, 2, 2)]),
+                             ('negativityHermGuard', E.get_negativity, [(2, 2), (2, 3), (4, 4)])):
+            flags = []
+            for dim in dims:
+                N = int(np.prod(dim))
+                H = np.eye(N, dtype=np.complex128) / N
+                g = lambda M: f(M, dim)
+                ok = not rejects(g, H)
+                for _, P in non_hermitian_variants(N):
+                    ok = ok and rejects(g, H + P) and rejects(g, H + 1e-9 * P) and not rejects(g, H + 1e-12 * P)
+                flags.append(bool(ok))
+            T[key] = bool(_consensus(flags, False))
         # closed forms as functions of the concurrence: which inputs give NaN decides the guard flags; `recognised` = the model formula at those
         # flags reproduces the implementation bit for bit on a grid
         one = np.float64(1.0)
@@ -265,6 +362,10 @@ def render_thresholds(T):
     L.append(f'def gpptAcceptOp : Cmp := .{T["gpptAcceptOp"]}')
     L.append(f'def gpptRhsOnePlusThreshold : Bool := {b(T["gpptRhsOnePlusThreshold"])}')
     L.append(f'def gpptBreakOp : Cmp := .{T["gpptBreakOp"]}')
+    L.append('/-- input guards `assert np.abs(rho-rho.T.conj()).max() <(=) 1e-10` of is_ppt / check_reduction_witness / get_negativity: present and complete -/')
+    L.append(f'def isPptHermGuard : Bool := {b(T["isPptHermGuard"])}')
+    L.append(f'def reductionHermGuard : Bool := {b(T["reductionHermGuard"])}')
+    L.append(f'def negativityHermGuard : Bool := {b(T["negativityHermGuard"])}')
     L.append('/-- `check_swap_witness(rho, eps=…)`: `ret = tmp0 <op> eps` -/')
     L.append(f'def swapEpsDefault : Rat := {_lean_rat(T["swapEpsDefault"])}')
     L.append(f'def swapOp : Cmp := .{T["swapOp"]}')
@@ -285,24 +386,30 @@ def render_thresholds(T):
 
 
 def translate(ctx):
-    T = extract_thresholds()
+    T = extract_thresholds(thorough=(ctx is not None and not ctx.quick()))
     txt = render_thresholds(T)
     os.makedirs(os.path.dirname(GEN), exist_ok=True)
     old = open(GEN).read() if os.path.exists(GEN) else None
     if old != txt:
         with common.build_lock():
-            with open(GEN, 'w') as fh:
+            tmp = GEN + f'.tmp{os.getpid()}'
+            with open(tmp, 'w') as fh:
                 fh.write(txt)
+            os.replace(tmp, GEN)   # atomic: a killed run must not leave a half-written generated file (Decision.lean is shared by C05 and C13)
     if ctx is not None:
-        ctx.extra['thresholds'] = {k: (str(v) if isinstance(v, Fraction) else v) for k, v in T.items()}
+        ctx.extra['thresholds'] = {k: (str(v) if isinstance(v, Fraction) else v) for k, v in T.items() if not k.startswith('_')}
+        ctx.extra['threshold_extraction_sizes'] = T.get('_sizes')
+        ctx.extra['threshold_extraction_per_size'] = T.get('_per_size')
     return T
 
 
 # ---------------------------------------------------------------------------------------------------------------
 # correspondence: exact tie of the index layer and of the verdict layer
 # ---------------------------------------------------------------------------------------------------------------
-DIMS_QUICK = [(2, 2), (2, 3), (3, 2), (3, 3), (2, 4), (2, 2, 2), (2, 3, 2), (3, 2, 2)]
-DIMS_THOROUGH = DIMS_QUICK + [(4, 2), (3, 4), (2, 2, 3), (2, 2, 2, 2), (3, 3, 2)]
+# every structural class (square bipartite - the only one the swap witness accepts -, rectangular bipartite, >= 3 parties) with at least two
+# sizes, including (4,4) and (5,5); one size beyond in the thorough tier.  LARGEST_TIED_N is recorded in the evidence.
+DIMS_QUICK = [(2, 2), (2, 3), (3, 2), (3, 3), (2, 4), (4, 4), (5, 5), (2, 2, 2), (2, 3, 2), (3, 2, 2)]
+DIMS_THOROUGH = DIMS_QUICK + [(4, 2), (3, 4), (6, 6), (2, 2, 3), (2, 2, 2, 2), (3, 3, 2), (3, 3, 3)]
 
 
 def guarded(f):
@@ -312,6 +419,8 @@ def guarded(f):
         return f()
     except HarnessInternal:
         raise
+    except ImplObservation as e:
+        return 'error:' + str(e)
     except AssertionError as e:
         if not is_impl_exception(e):
             raise HarnessInternal(f'AssertionError in harness code: {str(e)[:100]}') from e
@@ -348,6 +457,10 @@ def safely(ctx, key, replay, fn):
     """run a block that calls into the implementation; an exception becomes a failing input (ctx.fail), never an internal error"""
     try:
         return fn()
+    except ImplObservation as e:
+        # the implementation RETURNED something that is not of the documented kind (validated at the call boundary): a failing input
+        ctx.fail(key.replace(':raises', ':bad-return-value'), f'the implementation returned a value of the wrong kind: {e}', replay)
+        return None
     except Exception as e:
         import traceback
         tb = traceback.extract_tb(e.__traceback__)
@@ -362,6 +475,61 @@ def safely(ctx, key, replay, fn):
         where = next((f'{os.path.basename(t.filename)}:{t.lineno}' for t in reversed(tb) if '/numqi/' in t.filename.replace(os.sep, '/')), '')
         ctx.fail(key, f'{type(e).__name__}: {str(e)[:200]} {where}'.strip(), replay)
         return None
+
+
+def install_skip_reporting():
+    """ties / probe blocks withdrawn for harness-internal reasons must be VISIBLE and must not pass for full coverage: the count is written to
+    the evidence (`coverage.harness_internal_skips`), printed right under the summary line, and in the thorough tier a run that would otherwise
+    exit 0 exits 2 (internal error: incomplete coverage), never 1 (it is not a violation of the property).  harness/common.py belongs to the
+    coordinator; until the summary line itself carries the count this wraps `common.finish` for C05 / C13 runs only."""
+    if getattr(common.finish, '_ent1_hook', False):
+        return
+    orig = common.finish
+
+    def finish(ctx, *a, **kw):
+        mine = ctx.pid in ('C05', 'C13')
+        n = int(ctx.hist.get('harness-internal-skip', 0)) if mine else 0
+        if mine:
+            ctx.extra['harness_internal_skips'] = n
+        rc = orig(ctx, *a, **kw)
+        if n > 0:
+            esc = ctx.tier == 'thorough' and rc == 0
+            print(f'[{ctx.pid}] harness-internal-skip={n}: that many tie ops / probe blocks were WITHDRAWN and are not part of the agree count above '
+                  f'(coverage.notes names them)' + ('; thorough tier: incomplete coverage is an internal error -> exit 2' if esc else ''))
+            import sys
+            sys.stdout.flush()
+            if esc:
+                rc = 2
+        return rc
+    finish._ent1_hook = True
+    common.finish = finish
+
+
+# expected number of tie ops per kind on an unchanged tree (80 % of the counts of a clean run): a kind that falls below its minimum - in
+# particular to 0, which `drop_skipped` / SKIP make possible with a note only - is listed in the evidence together with the probe that still
+# covers the function
+TIE_MINIMA = dict(
+    quick={'ppt': 100, 'red': 100, 'gppt': 90, 'swap': 8, 'ptb': 12, 'vppt': 110, 'vred': 110, 'vgppt': 110, 'vswap': 60, 'hguard': 70, 'gpptlist': 3,
+           'sxidx': 4, 'sxcon': 6, 'sxwit': 4, 'idx0213': 5, 'sxrealign': 8, 'extray': 3, 'irreprdm': 8,
+           'measure-eof': 50, 'measure-gme': 50, 'measure-wread': 10, 'measure-eofspec': 35, 'measure-gmespec': 35, 'measure-negread': 20},
+    thorough={'ppt': 400, 'red': 400, 'gppt': 350, 'swap': 30, 'ptb': 60, 'vppt': 500, 'vred': 500, 'vgppt': 230, 'vswap': 200, 'hguard': 130, 'gpptlist': 4,
+              'sxidx': 7, 'sxcon': 12, 'sxwit': 7, 'idx0213': 5, 'sxrealign': 14, 'extray': 5, 'irreprdm': 14,
+              'measure-eof': 500, 'measure-gme': 500, 'measure-wread': 10, 'measure-eofspec': 300, 'measure-gmespec': 300, 'measure-negread': 150})
+TIE_COVERED_BY = {'ppt': 'probe is_ppt:index', 'red': 'probe check_reduction_witness:index', 'gppt': 'probe is_generalized_ppt:index', 'swap': 'probe check_swap_witness:index',
+                  'ptb': 'probe get_negativity:index', 'gpptlist': 'probe is_generalized_ppt:bipartitions'}
+
+
+def record_tie_minima(ctx, minima, covered=TIE_COVERED_BY):
+    seen = {k: int(ctx.hist.get(k, 0)) for k in minima}
+    below = sorted(k for k, m in minima.items() if seen[k] < m)
+    ctx.extra['tie_ops_per_kind'] = seen
+    ctx.extra['tie_ops_minimum'] = dict(minima)
+    ctx.extra['tie_kinds_below_minimum'] = below
+    if below:
+        ctx.note('tie kinds below their expected number of ops: ' + ', '.join(f'{k} {seen[k]}/{minima[k]}' + (' (VANISHED; ' + covered.get(k, 'covered by the *-separable / *-nonzero probes only') + ')' if seen[k] == 0 else '')
+                                                                                for k in below))
+        if any(seen[k] == 0 for k in below) and not ctx.hist.get('harness-internal-skip', 0):
+            ctx.count('harness-internal-skip')       # a whole kind of tie is gone without any op having been counted as withdrawn
 
 
 def gi(v):
@@ -390,38 +558,153 @@ def frac_str(fr):
     return f'{fr.numerator}/{fr.denominator}'
 
 
+_EIG = ('eigh', 'eigvalsh', 'eigvals', 'eig')
+_RESULT_TYPES = {}
+
+
+def _eig_result_type(orig):
+    """the (named) tuple type the real routine returns for `(values, vectors)`; plain tuple if it has none"""
+    k = id(orig)
+    if k not in _RESULT_TYPES:
+        try:
+            r = orig(np.eye(1))
+            _RESULT_TYPES[k] = type(r) if isinstance(r, tuple) and hasattr(r, '_fields') and len(r) == 2 else None
+        except Exception:
+            _RESULT_TYPES[k] = None
+    return _RESULT_TYPES[k]
+
+
+@contextlib.contextmanager
+def eig_family(handler):
+    """replace, CONSISTENTLY, every entry point through which the implementation can obtain a dense eigen-decomposition:
+    `eigh / eigvalsh / eigvals / eig` of `numpy.linalg` and `scipy.linalg`, and every module-global alias of one of them inside a numqi
+    module (`from numpy.linalg import eigvalsh`).  `handler(name, a, wants_vectors)` returns None (call the real routine) or `(values,
+    vectors)`; the wrapper hands back values only where the routine returns values only.  Which of the routines the implementation
+    happens to call must not matter to a tie (eigvals -> eigvalsh, eigvalsh(M) -> eigh(M)[0] are behaviour-preserving rewrites)."""
+    import sys
+    mods = [np.linalg]
+    try:
+        import scipy.linalg
+        mods.append(scipy.linalg)
+    except Exception:
+        pass
+    wrappers = {}
+
+    def make(orig, name):
+        def w(a, *args, **kw):
+            vec = name in ('eigh', 'eig') and not kw.get('eigvals_only', False)
+            r = handler(name, a, vec)
+            if r is None:
+                return orig(a, *args, **kw)
+            evl, evc = r
+            if not vec:
+                return evl
+            cls = _eig_result_type(orig)
+            return cls(evl, evc) if cls else (evl, evc)
+        return w
+    for mod in mods:
+        for name in _EIG:
+            orig = getattr(mod, name, None)
+            if orig is not None and id(orig) not in wrappers:
+                _eig_result_type(orig) if name in ('eigh', 'eig') else None
+                wrappers[id(orig)] = (orig, make(orig, name))
+    saved = []
+    for mod in mods:
+        for name in _EIG:
+            orig = getattr(mod, name, None)
+            if orig is not None and id(orig) in wrappers and wrappers[id(orig)][0] is orig:
+                saved.append((mod, name, orig)); setattr(mod, name, wrappers[id(orig)][1])
+    for mname, m in list(sys.modules.items()):
+        if m is None or not (mname == 'numqi' or mname.startswith('numqi.')):
+            continue
+        g = getattr(m, '__dict__', None)
+        if not isinstance(g, dict):
+            continue
+        for k, v in list(g.items()):
+            if callable(v) and id(v) in wrappers and wrappers[id(v)][0] is v:
+                saved.append((g, k, v)); g[k] = wrappers[id(v)][1]
+    try:
+        yield
+    finally:
+        for tgt, k, v in reversed(saved):
+            if isinstance(tgt, dict):
+                tgt[k] = v
+            else:
+                setattr(tgt, k, v)
+
+
+def _swap_numqi_aliases(orig, new):
+    """replace the object `orig` by `new` in the globals of every loaded numqi module that holds it; returns the undo list"""
+    import sys
+    saved = []
+    for mname, m in list(sys.modules.items()):
+        if m is None or not (mname == 'numqi' or mname.startswith('numqi.')):
+            continue
+        g = getattr(m, '__dict__', None)
+        if not isinstance(g, dict):
+            continue
+        for k, v in list(g.items()):
+            if v is orig:
+                saved.append((g, k, v)); g[k] = new
+    return saved
+
+
+@contextlib.contextmanager
+def spectrum_stub(ev):
+    """every routine of the eigen family answers with the prescribed spectrum (identity eigenvectors where vectors are asked for)"""
+    calls = []
+
+    def handler(name, a, vec):
+        calls.append(name)
+        return np.array(ev, dtype=np.float64), np.eye(len(ev), dtype=np.complex128)
+    with eig_family(handler):
+        yield calls
+
+
 @contextlib.contextmanager
 def capture():
-    """record the matrices that the criteria hand to the PSD test / nuclear norm / eigenvalue routines (verdicts forced to True
-    so that `all(...)` does not short-circuit)"""
+    """record the matrices that the criteria hand to the PSD test / nuclear norm / eigenvalue routines (PSD verdicts forced to True so that
+    `all(...)` does not short-circuit).  Every wrapper passes `*args, **kw` through unchanged (the implementation's own signatures may grow)
+    and reads the one argument it needs defensively; the eigenvalue routines are recorded through `eig_family` (whichever routine is used),
+    the nuclear norm through `np.linalg.norm(ord='nuc')` or a bare `np.linalg.svd(compute_uv=False)`"""
     import numqi
-    rec = dict(psd=[], norm=[], eigvals=[], eigvalsh=[])
-    o_psd, o_norm, o_eigvals, o_eigvalsh = numqi.utils.is_positive_semi_definite, np.linalg.norm, np.linalg.eigvals, np.linalg.eigvalsh
+    rec = dict(psd=[], norm=[], eig=[])
+    o_psd, o_norm, o_svd = numqi.utils.is_positive_semi_definite, np.linalg.norm, np.linalg.svd
 
-    def psd(np0, shift=0.0, hermitian_eps=None):
-        rec['psd'].append((np.array(np0), shift))
+    def psd(np0, *a, **kw):
+        rec['psd'].append((np.array(np0), kw.get('shift', a[0] if a else 0.0)))
         return True
 
-    def norm(x, ord=None, axis=None, keepdims=False):
-        if ord == 'nuc':
+    def norm(x, *a, **kw):
+        o = kw.get('ord', a[0] if a else None)
+        if isinstance(o, str) and o == 'nuc':
             rec['norm'].append(np.array(x))
-        return o_norm(x, ord=ord, axis=axis, keepdims=keepdims)
+        return o_norm(x, *a, **kw)
 
-    def eigvals(a):
-        rec['eigvals'].append(np.array(a))
-        return o_eigvals(a)
+    def svd(x, *a, **kw):
+        if kw.get('compute_uv', a[1] if len(a) > 1 else True) is False and np.ndim(x) == 2:
+            rec['norm'].append(np.array(x))          # nuclear norm spelled as the sum of the singular values
+        return o_svd(x, *a, **kw)
 
-    def eigvalsh(a, UPLO='L'):
-        rec['eigvalsh'].append(np.array(a))
-        return o_eigvalsh(a, UPLO)
-
-    numqi.utils.is_positive_semi_definite = psd
-    np.linalg.norm, np.linalg.eigvals, np.linalg.eigvalsh = norm, eigvals, eigvalsh
+    def handler(name, a, vec):
+        rec['eig'].append(np.array(a))
+        return None
+    saved = _swap_numqi_aliases(o_psd, psd)      # `numqi.utils.is_positive_semi_definite` and every `from numqi.utils import …` alias of it
+    np.linalg.norm, np.linalg.svd = norm, svd
     try:
-        yield rec
+        with eig_family(handler):
+            yield rec
     finally:
-        numqi.utils.is_positive_semi_definite = o_psd
-        np.linalg.norm, np.linalg.eigvals, np.linalg.eigvalsh = o_norm, o_eigvals, o_eigvalsh
+        for g, k, v in reversed(saved):
+            g[k] = v
+        np.linalg.norm, np.linalg.svd = o_norm, o_svd
+
+
+def first_eig(rec, what):
+    """the first matrix handed to a routine of the eigen family (first item of a batch)"""
+    need(rec['eig'], what)
+    m = rec['eig'][0]
+    return m.reshape(-1, m.shape[-2], m.shape[-1])[0]
 
 
 def parse_ents(s, N):
@@ -440,15 +723,46 @@ def gppt_bipartitions(n):
     """the bipartitions is_generalized_ppt evaluates for n parties, from its PUBLIC return value (return_info=True lists (dim0, dim1, norm))"""
     import numqi
     N = 2 ** n
-    info = numqi.entangle.is_generalized_ppt(np.eye(N) / N, (2,) * n, return_info=True)[1]
-    return [(tuple(int(x) for x in d0), tuple(int(x) for x in d1)) for d0, d1, _ in info]
+    info = vinfo(numqi.entangle.is_generalized_ppt(np.eye(N) / N, (2,) * n, return_info=True))[1]
+    return [(d0, d1) for d0, d1, _ in info]
 
 
 def need(rec_list, what):
     """the capture wrappers intercept the routine through which the implementation tests its matrix; if nothing was intercepted the
-    implementation reaches that routine differently: the capture (harness) is out of date, not the implementation"""
+    implementation reaches that routine differently: the capture (harness) is out of date, not the implementation.  (The value the
+    function RETURNED has been validated before this point - a verdict that is not a bool is reported, not skipped.)"""
     if len(rec_list) == 0:
         raise HarnessInternal(f'nothing captured through {what}')
+
+
+def psd_tested_matrices(call):
+    """the matrices a criterion tests for positivity, in the order tested: through `is_positive_semi_definite` (verdicts forced to True so
+    that `all(...)` does not stop early) or, if the implementation does not go through that function, through a routine of the eigen family
+    (answered with an all-ones spectrum for the same reason).  The verdict returned by `call` is validated (bool) first."""
+    with capture() as rec:
+        vbool(call())
+    if rec['psd']:
+        return [m for m, _ in rec['psd']]
+    mats = []
+
+    def handler(name, a, vec):
+        mats.append(np.array(a))
+        n = np.asarray(a).shape[-1]
+        return np.ones(n), np.eye(n, dtype=np.complex128)
+    with eig_family(handler):
+        vbool(call())
+    need(mats, 'is_positive_semi_definite or an eigenvalue routine')
+    return [m.reshape(-1, m.shape[-2], m.shape[-1])[0] for m in mats]
+
+
+def non_hermitian_variants(N):
+    """perturbations P such that H + P is not Hermitian (H Hermitian), one per way a Hermiticity test can be incomplete:
+    real asymmetric off-diagonal, imaginary diagonal, imaginary symmetric off-diagonal"""
+    out = []
+    P = np.zeros((N, N), dtype=np.complex128); P[0, N - 1] = 1; out.append(('real-asymmetric', P))
+    P = np.zeros((N, N), dtype=np.complex128); P[N - 1, N - 1] = 1j; out.append(('imaginary-diagonal', P))
+    P = np.zeros((N, N), dtype=np.complex128); P[0, N - 1] = 1j; P[N - 1, 0] = 1j; out.append(('imaginary-symmetric', P))
+    return out
 
 
 def impl_op(op):
@@ -456,32 +770,31 @@ def impl_op(op):
     E = numqi.entangle
     t = op.split(' ')
     k = t[1]
+    b = lambda x: '1' if vbool(x) else '0'          # a verdict that is not a bool is an observation `error:verdict-type:<type>`
     if k == 'gpptlist':
         def f():
             return '|'.join(','.join(str(x) for x in d0) + ':' + ','.join(str(x) for x in d1) for d0, d1 in gppt_bipartitions(int(t[2])))
         return gskip(f)
     dim = tuple(int(x) for x in t[2].split(';'))
     N = int(np.prod(dim))
+    if k == 'hguard':
+        fn = dict(ppt=lambda m: E.is_ppt(m, dim), red=lambda m: E.check_reduction_witness(m, dim), neg=lambda m: E.get_negativity(m, dim))[t[3]]
+        rho = parse_ents(t[4], N)
+
+        def f():
+            r = guarded(lambda: fn(rho))
+            return 'error' if isinstance(r, str) and r.startswith('error') else 'ok'
+        return gskip(f)
     if k in ('ppt', 'red', 'gppt', 'swap', 'ptb'):
         rho = parse_ents(t[3], N)
         if k == 'ppt':
-            def f():
-                with capture() as rec:
-                    E.is_ppt(rho, dim)
-                need(rec['psd'], 'is_positive_semi_definite')
-                return '|'.join(dump(m) for m, _ in rec['psd'])
-            return gskip(f)
+            return gskip(lambda: '|'.join(dump(m) for m in psd_tested_matrices(lambda: E.is_ppt(rho, dim))))
         if k == 'red':
-            def f():
-                with capture() as rec:
-                    E.check_reduction_witness(rho, dim)
-                need(rec['psd'], 'is_positive_semi_definite')
-                return '|'.join(dump(m) for m, _ in rec['psd'])
-            return gskip(f)
+            return gskip(lambda: '|'.join(dump(m) for m in psd_tested_matrices(lambda: E.check_reduction_witness(rho, dim))))
         if k == 'gppt':
             def f():
                 with capture() as rec:
-                    E.is_generalized_ppt(rho, dim, return_info=True)
+                    vinfo(E.is_generalized_ppt(rho, dim, return_info=True))
                 need(rec['norm'], 'np.linalg.norm(ord="nuc")')
                 return '|'.join(f'{m.shape[0]}:' + dump(m) for m in rec['norm'])
             return gskip(f)
@@ -490,11 +803,11 @@ def impl_op(op):
             def f():
                 lo, hi = -10 ** 6, 10 ** 6
                 # invariant: value > lo - 1/2 and not value > hi - 1/2  (value integer in [lo, hi-1])
-                if not E.check_swap_witness(rho, eps=lo - 0.5) or E.check_swap_witness(rho, eps=hi - 0.5):
+                if not vbool(E.check_swap_witness(rho, eps=lo - 0.5)) or vbool(E.check_swap_witness(rho, eps=hi - 0.5)):
                     return 'out-of-range'
                 while hi - lo > 1:
                     mid = (lo + hi) // 2
-                    if E.check_swap_witness(rho, eps=mid - 0.5):
+                    if vbool(E.check_swap_witness(rho, eps=mid - 0.5)):
                         lo = mid
                     else:
                         hi = mid
@@ -504,27 +817,26 @@ def impl_op(op):
             def f():
                 with capture() as rec:
                     E.get_negativity(rho, dim)
-                a = dump(rec['eigvals'][0])
+                a = dump(first_eig(rec, 'an eigenvalue routine (get_negativity)'))
                 with capture() as rec:
                     with np.errstate(all='ignore'):
                         E.get_ppt_boundary(rho, dim, dm_norm=1.0, within_dm=False)
-                b = dump(rec['eigvalsh'][0][0])
-                return a if a == b else f'negativity:{a} ppt_boundary:{b}'
+                b_ = dump(first_eig(rec, 'an eigenvalue routine (get_ppt_boundary)'))
+                return a if a == b_ else f'negativity:{a} ppt_boundary:{b_}'
             return gskip(f)
     if k in ('vppt', 'vred', 'vgppt', 'vswap'):
         eps = t[3]
         rho = parse_ents(t[4], N)
         kw = {} if eps == 'default' else {('threshold' if k == 'vgppt' else 'eps'): float(Fraction(eps))}
-        b = lambda x: '1' if x else '0'
         if k == 'vppt':
             return gskip(lambda: b(E.is_ppt(rho, dim, **kw)))
         if k == 'vred':
             return gskip(lambda: b(E.check_reduction_witness(rho, dim, **kw)))
         if k == 'vgppt':
             def f():
-                r0 = E.is_generalized_ppt(rho, dim, **kw)
-                r1 = E.is_generalized_ppt(rho, dim, return_info=True, **kw)[0]
-                return b(r0) if bool(r0) == bool(r1) else 'inconsistent-return_info'
+                r0 = vbool(E.is_generalized_ppt(rho, dim, **kw))
+                r1 = vinfo(E.is_generalized_ppt(rho, dim, return_info=True, **kw))[0]
+                return ('1' if r0 else '0') if r0 == r1 else 'inconsistent-return_info'
             return gskip(f)
         if k == 'vswap':
             return gskip(lambda: b(E.check_swap_witness(rho, **kw)))
@@ -552,10 +864,17 @@ def gen_ops(ctx):
     dims = DIMS_QUICK if ctx.quick() else DIMS_THOROUGH
     for n in range(2, 5 if ctx.quick() else 6):
         ops.append(f'C05 gpptlist {n}')
-    rep = 3 if ctx.quick() else 12
+    rep0 = 3 if ctx.quick() else 12
     for dim in dims:
         N = int(np.prod(dim))
         ds = dims_str(dim)
+        rep = rep0 if N <= 12 else max(2, rep0 // 3)         # the large systems: fewer random matrices (each has N^2 >= 256 entries)
+        # Hermiticity guards of is_ppt / check_reduction_witness / get_negativity: one Hermitian input and the three kinds of non-Hermitian ones
+        Hh = rand_gint_matrix(rng, N, True)
+        for fn in ('ppt', 'red') + (('neg',) if len(dim) == 2 else ()):
+            ops.append(f'C05 hguard {ds} {fn} {ents(Hh)}')
+            for _, P in non_hermitian_variants(N):
+                ops.append(f'C05 hguard {ds} {fn} {ents(Hh + P)}')
         for r in range(rep):
             H = rand_gint_matrix(rng, N, True, density=[1.0, 0.3, 1.0][r % 3])
             G = rand_gint_matrix(rng, N, False, density=[1.0, 1.0, 0.3][r % 3])
@@ -968,7 +1287,8 @@ def compare_measures(ctx):
                 r = gskip(lambda: float(f(np.eye(4) / 4))) if stub_ok else SKIP
             items.append((f'C05 {name} {f2b(c)}', r))
     for ev in [[0, 0, 0, 0], [0, 0, 0, 1], [1e-18, 1e-17, 1e-17, 2e-17], [0.0625] * 4] + [sorted((rng.dirichlet(np.ones(4)) ** 2).tolist()) for _ in range(10)]:
-        items.append(('C05 wread ' + ';'.join(str(f2b(x)) for x in ev), c13.read_with_spectrum(ev, lambda: E.get_concurrence_2qubit(np.eye(4) / 4))))
+        eff_w = c13.stub_effective('wread', lambda: E.get_concurrence_2qubit(np.eye(4) / 4), [0, 0, 0, 1], [0, 0, 0, 0.25])
+        items.append(('C05 wread ' + ';'.join(str(f2b(x)) for x in ev), c13.read_with_spectrum(ev, lambda: E.get_concurrence_2qubit(np.eye(4) / 4)) if eff_w else SKIP))
     items = drop_skipped(ctx, items)
     model = common.run_model([o for o, _ in items])
     dev = 0.0
@@ -984,7 +1304,8 @@ def compare_measures(ctx):
 
 
 def correspondence(ctx):
-    T = extract_thresholds()
+    install_skip_reporting()
+    T = extract_thresholds(not ctx.quick())
     ops = gen_ops(ctx)
     impl = []
     for op in ops:
@@ -1009,6 +1330,9 @@ def correspondence(ctx):
     common.compare(ctx, ops, impl, model, nontrivial=nontrivial)
     compare_irrep(ctx, irrep_ops(ctx, np.random.default_rng(ctx.np_seed + 6)))
     compare_measures(ctx)
+    record_tie_minima(ctx, TIE_MINIMA['quick' if ctx.quick() else 'thorough'])
+    ctx.extra['largest_tied_N'] = max(int(np.prod(d)) for d in (DIMS_QUICK if ctx.quick() else DIMS_THOROUGH))
+    ctx.extra['tied_dims'] = [list(d) for d in (DIMS_QUICK if ctx.quick() else DIMS_THOROUGH)]
     ctx.extra['exhaustive'] = True
     ctx.extra['exhaustive_domain'] = ('every single-entry matrix (all index pairs) of the systems with N<=6 through is_ppt / is_generalized_ppt / '
                                       'check_reduction_witness; the complete _is_generalized_ppt_dim_list for 2..4 parties' + ('' if ctx.quick() else ' (2..5, N<=9 in thorough)'))
@@ -1020,7 +1344,9 @@ def _wellformed(op):
         return t[2].isdigit()
     if t[1] in ('sxidx', 'sxcon', 'sxwit'):
         return True
-    if t[1] not in ('ppt', 'red', 'gppt', 'swap', 'ptb', 'vppt', 'vred', 'vgppt', 'vswap'):
+    if t[1] not in ('ppt', 'red', 'gppt', 'swap', 'ptb', 'vppt', 'vred', 'vgppt', 'vswap', 'hguard'):
+        return False
+    if t[1] == 'hguard' and (len(t) != 5 or t[3] not in ('ppt', 'red', 'neg')):
         return False
     try:
         dim = [int(x) for x in t[2].split(';')]
@@ -1042,6 +1368,8 @@ def _wellformed(op):
 # probe: direct evaluation of the property on the real code (independent of the Lean model)
 # ---------------------------------------------------------------------------------------------------------------
 PROBE_DIMS = [(2, 2), (2, 3), (3, 2), (3, 3), (2, 4), (2, 2, 2), (2, 3, 2)]
+PROBE_DIMS_LARGE = [(4, 4), (5, 5)]          # quick and thorough: second / third size of the square class (the only class of the swap witness)
+PROBE_DIMS_LARGE_THOROUGH = [(6, 6), (3, 3, 3), (2, 2, 2, 2)]
 TOL_MEASURE = 1e-7          # closed-form measures of a separable state (exactly 0) must be finite and below this
 TOL_CONCURRENCE = 5e-7      # concurrence is a difference of square roots of eigenvalues known to ~1e-16: error ~1e-8
 
@@ -1168,8 +1496,8 @@ def check_bell_diag(ctx, p):
     rp = dict(rho_desc(rho, (2, 2), 'bell-diagonal'), weights=[float(x) for x in p])
     E = PureCalls(ctx, numqi.entangle, rp)
     ok = True
-    res = dict(is_ppt=guarded(lambda: bool(E.is_ppt(rho, (2, 2)))), is_generalized_ppt=guarded(lambda: bool(E.is_generalized_ppt(rho, (2, 2)))),
-               check_reduction_witness=guarded(lambda: bool(E.check_reduction_witness(rho, (2, 2)))), check_swap_witness=guarded(lambda: bool(E.check_swap_witness(rho))))
+    res = dict(is_ppt=guarded(lambda: vbool(E.is_ppt(rho, (2, 2)))), is_generalized_ppt=guarded(lambda: vbool(E.is_generalized_ppt(rho, (2, 2)))),
+               check_reduction_witness=guarded(lambda: vbool(E.check_reduction_witness(rho, (2, 2)))), check_swap_witness=guarded(lambda: vbool(E.check_swap_witness(rho))))
     if pm <= 0.5:
         for name, r in res.items():
             if r is not True:
@@ -1245,26 +1573,20 @@ def check_index_layer(ctx, rho, dim, tag, replay):
     import numqi
     E = numqi.entangle
     ok = True
-    with capture() as rec:
-        E.is_ppt(rho, dim)
-    need(rec['psd'], 'is_positive_semi_definite')
-    got = [m for m, _ in rec['psd']]
+    got = psd_tested_matrices(lambda: E.is_ppt(rho, dim))
     for i in range(len(dim)):
         if i >= len(got) or not np.array_equal(got[i], oracle_pt(rho, dim, i)):
             ctx.fail('is_ppt:index', f'is_ppt tests a matrix that is not the partial transpose on party {i} for dim={dim} ({tag})', dict(replay, party=i)); ok = False
             break
-    with capture() as rec:
-        E.check_reduction_witness(rho, dim)
-    need(rec['psd'], 'is_positive_semi_definite')
-    got = [m for m, _ in rec['psd']]
+    got = psd_tested_matrices(lambda: E.check_reduction_witness(rho, dim))
     for i in range(len(dim)):
         if i >= len(got) or np.abs(got[i] - oracle_reduction(rho, dim, i)).max() > 1e-12:
             ctx.fail('check_reduction_witness:index', f'check_reduction_witness tests a matrix that is not 1⊗rho_{i}⊗1-rho for dim={dim} ({tag})', dict(replay, party=i)); ok = False
             break
     with capture() as rec:
-        info = E.is_generalized_ppt(rho, dim, return_info=True)[1]
+        info = vinfo(E.is_generalized_ppt(rho, dim, return_info=True))[1]        # validated: (bool, [(dim0, dim1, norm), …])
     need(rec['norm'], 'np.linalg.norm(ord="nuc")')
-    dl = [(tuple(int(x) for x in d0), tuple(int(x) for x in d1)) for d0, d1, _ in info]     # public return value
+    dl = [(d0, d1) for d0, d1, _ in info]     # public return value
     if len(rec['norm']) != len(dl):
         ctx.fail('is_generalized_ppt:index', f'is_generalized_ppt evaluated {len(rec["norm"])} bipartitions, expected {len(dl)}', replay); ok = False
     else:
@@ -1286,12 +1608,12 @@ def check_index_layer(ctx, rho, dim, tag, replay):
         d = dim[0]
         v = float(sum(rho[a * d + b, b * d + a] for a in range(d) for b in range(d)).real)
         h = 1e-9 * max(1.0, abs(v))
-        if not (E.check_swap_witness(rho, eps=v - h) and not E.check_swap_witness(rho, eps=v + h)):
+        if not (vbool(E.check_swap_witness(rho, eps=v - h)) and not vbool(E.check_swap_witness(rho, eps=v + h))):
             ctx.fail('check_swap_witness:index', f'check_swap_witness does not threshold Re sum_ab rho[(a,b),(b,a)] = {v} ({tag})', dict(replay, value=v)); ok = False
     if len(dim) == 2:
         with capture() as rec:
             E.get_negativity(rho, dim)
-        if not np.array_equal(rec['eigvals'][0], oracle_pt(rho, dim, 1)):
+        if not np.array_equal(first_eig(rec, 'an eigenvalue routine (get_negativity)'), oracle_pt(rho, dim, 1)):
             ctx.fail('get_negativity:index', f'get_negativity diagonalises a matrix that is not the partial transpose ({tag})', replay); ok = False
     if ok:
         ctx.probe_ok(('index', tag))
@@ -1309,18 +1631,21 @@ def check_state(ctx, rho, dim, tag, replay, meas):
         nonlocal good
         good = False
         ctx.fail(key, what + f' [{tag}]', replay)
-    r = guarded(lambda: E.is_ppt(rho, dim))
+    r = guarded(lambda: vbool(E.is_ppt(rho, dim)))
     if r is not True:
         bad('is_ppt:separable-rejected', f'is_ppt returned {r} for a separable state, dim={dim}')
-    r = guarded(lambda: E.is_generalized_ppt(rho, dim))
-    if r is not True:
-        info = guarded(lambda: max(x[2] for x in E.is_generalized_ppt(rho, dim, return_info=True)[1]))
-        bad('is_generalized_ppt:separable-rejected', f'is_generalized_ppt returned {r} for a separable state (largest nuclear norm {info}), dim={dim}')
-    r = guarded(lambda: E.check_reduction_witness(rho, dim))
+    r = guarded(lambda: vbool(E.is_generalized_ppt(rho, dim)))
+    with capture() as rec_g:      # (norm / svd are recorded and passed through: values unchanged)
+        ri = guarded(lambda: vinfo(E.is_generalized_ppt(rho, dim, return_info=True)))
+    if r is not True or isinstance(ri, str) or ri[0] is not True:
+        info = max((x[2] for x in ri[1]), default=None) if not isinstance(ri, str) else ri
+        bad('is_generalized_ppt:separable-rejected', f'is_generalized_ppt returned {r} (return_info=True: {ri[0] if not isinstance(ri, str) else ri}) for a separable state '
+            f'(largest nuclear norm {info}), dim={dim}')
+    r = guarded(lambda: vbool(E.check_reduction_witness(rho, dim)))
     if r is not True:
         bad('check_reduction_witness:separable-rejected', f'check_reduction_witness returned {r} for a separable state, dim={dim}')
     if len(dim) == 2 and dim[0] == dim[1]:
-        r = guarded(lambda: E.check_swap_witness(rho))
+        r = guarded(lambda: vbool(E.check_swap_witness(rho)))
         if r is not True:
             bad('check_swap_witness:separable-rejected', f'check_swap_witness returned {r} for a separable state, dim={dim}')
         d = dim[0]
@@ -1345,9 +1670,7 @@ def check_state(ctx, rho, dim, tag, replay, meas):
     for i in range(len(dim)):
         lm = np.linalg.eigvalsh(oracle_pt(rho, dim, i) if rho.shape[0] <= 12 else rho)[0]
         meas['ppt'] = max(meas.get('ppt', 0.0), max(0.0, -lm))
-    with capture() as rec:
-        guarded(lambda: E.is_generalized_ppt(rho, dim, return_info=True))
-    for m in rec['norm']:
+    for m in rec_g['norm']:
         meas['gppt'] = max(meas.get('gppt', 0.0), max(0.0, np.linalg.svd(m, compute_uv=False).sum() - 1))
     if good:
         ctx.probe_ok(('state', tag))
@@ -1416,12 +1739,16 @@ def probe(ctx):
     kinds = ['complex', 'real', 'basis', 'repeated', 'parallel']
     nrep = 6 if ctx.quick() else 12
     count = 0
-    for dim in PROBE_DIMS:
+    large = PROBE_DIMS_LARGE + ([] if ctx.quick() else PROBE_DIMS_LARGE_THOROUGH)
+    ctx.extra['largest_probed_N'] = max(int(np.prod(d)) for d in PROBE_DIMS + large)
+    for dim in PROBE_DIMS + large:
         N = int(np.prod(dim))
         terms = sorted(set([1, 2, 3, N // 2, N, N + 1, 2 * N]) - {0})
+        if dim in large:
+            terms = sorted(set([1, 2, N // 2, N + 1]))        # the large systems: fewer ensemble sizes and repetitions (cost ~ N^3 per criterion)
         for kind in kinds:
             for nterm in terms:
-                for _ in range(nrep if nterm > 1 else 1):
+                for _ in range((nrep if dim not in large else 2) if nterm > 1 else 1):
                     rho, desc = make_separable(rng, dim, nterm, kind)
                     tag = f'{kind}/{"x".join(map(str, dim))}/terms={nterm}'
                     ctx.count('probe-' + kind)
@@ -1445,6 +1772,20 @@ def probe(ctx):
         rho, desc = make_separable(rng, (2, 2), int(rng.integers(1, 9)), 'complex' if k % 3 else 'real')
         ctx.count('probe-2qubit-extra')
         safely(ctx, 'criteria:raises', desc, lambda: check_state(ctx, rho, (2, 2), f'2qubit-extra/{k}', desc, meas))
+    # orthogonal computational-basis products |a b><a b|, a != b, and their mixtures: swap value EXACTLY 0 (the boundary of the exact bound),
+    # every partial transpose / reduction matrix has the eigenvalue 0, every realignment nuclear norm exactly 1 - for every square size
+    for d in (2, 3, 4, 5) + (() if ctx.quick() else (6, 7)):
+        for (a_, b_) in sorted({(0, 1), (1, 0), (0, d - 1), (d - 1, d - 2)}):
+            rho = np.zeros((d * d, d * d), dtype=np.complex128); rho[a_ * d + b_, a_ * d + b_] = 1
+            nm = f'|{a_}{b_}><{a_}{b_}|/{d}x{d}'
+            ctx.count('probe-orthogonal-product')
+            safely(ctx, 'criteria:raises', rho_desc(rho, (d, d), nm), lambda: check_state(ctx, rho, (d, d), nm, rho_desc(rho, (d, d), nm), meas))
+        rho = np.zeros((d * d, d * d), dtype=np.complex128)
+        for a_ in range(d):
+            rho[a_ * d + (a_ + 1) % d, a_ * d + (a_ + 1) % d] = 1.0 / d
+        nm = f'mixture-of-|a,a+1>/{d}x{d}'
+        ctx.count('probe-orthogonal-product')
+        safely(ctx, 'criteria:raises', rho_desc(rho, (d, d), nm), lambda: check_state(ctx, rho, (d, d), nm, rho_desc(rho, (d, d), nm), meas))
     pl = np.array([1.0, 1.0]) / np.sqrt(2); mi = np.array([1.0, -1.0]) / np.sqrt(2); z0 = np.array([1.0, 0.0])
     for name, vs in [('|++>', [pl, pl]), ('|+->', [pl, mi]), ('|+0>', [pl, z0]), ('|0+>', [z0, pl]), ('|+++>', [pl, pl, pl]), ('|+0->', [pl, z0, mi])]:
         v = product_state(vs); rr = np.outer(v, v)                # float64, real, not an X-state
@@ -1458,13 +1799,32 @@ def probe(ctx):
     for pw in bell_diag_grid(rng, ctx.quick()):
         ctx.count('probe-bell-diagonal')
         safely(ctx, 'criteria:raises', dict(weights=[float(x) for x in pw], dim=[2, 2]), lambda: check_bell_diag(ctx, pw))
+    # input guards: is_ppt / check_reduction_witness / get_negativity reject a matrix that is not Hermitian (every kind of deviation, size 1 and 1e-9)
+    for dim in [(2, 2), (2, 3), (4, 4), (2, 2, 2)]:
+        N = int(np.prod(dim))
+        rho0, dsc = make_separable(rng, dim, 3, 'complex')
+        for name, f in (('is_ppt', numqi.entangle.is_ppt), ('check_reduction_witness', numqi.entangle.check_reduction_witness)) + \
+                ((('get_negativity', numqi.entangle.get_negativity),) if len(dim) == 2 else ()):
+            for kindP, P in non_hermitian_variants(N):
+                for mag in (1.0, 1e-9):
+                    M = rho0 + mag * P
+                    ctx.count('probe-non-hermitian')
+                    r = gskip(lambda: f(M, dim))
+                    if isinstance(r, str) and r == SKIP:
+                        continue
+                    if not (isinstance(r, str) and r.startswith('error')):
+                        ctx.fail(f'{name}:non-hermitian-accepted', f'{name} accepted (returned {str(r)[:40]}) a matrix that is not Hermitian: a separable state plus a {kindP} '
+                                 f'deviation of size {mag} (max|rho - rho^H| = {float(np.abs(M - M.conj().T).max()):.3g} > 1e-10), dim={dim}',
+                                 dict(rho_desc(M, dim, 'non-hermitian'), deviation=kindP, magnitude=mag))
+                    else:
+                        ctx.probe_ok((name, 'non-hermitian', dim, kindP, mag))
     # the documented closed boundary of is_generalized_ppt (`norm<=1+threshold` passes): computational-basis product states have
     # nuclear norm exactly 1 in every realignment (a single entry 1), so they must pass even with threshold=0
-    for dim in PROBE_DIMS:
+    for dim in PROBE_DIMS + large:
         N = int(np.prod(dim))
         for k in sorted(set([0, N - 1, int(rng.integers(0, N))])):
             rho = np.zeros((N, N), dtype=np.complex128); rho[k, k] = 1
-            r = gskip(lambda: numqi.entangle.is_generalized_ppt(rho, dim, threshold=0))
+            r = gskip(lambda: vbool(numqi.entangle.is_generalized_ppt(rho, dim, threshold=0)))
             ctx.count('probe-gppt-boundary')
             if r == SKIP:
                 continue
@@ -1494,8 +1854,8 @@ def probe(ctx):
                 states.append((numqi.state.Isotropic(d, a).astype(np.complex128), rho_desc(numqi.state.Isotropic(d, a), dim, f'Isotropic({d},{a})'), f'Isotropic({d},{a})', None))
         for rho, dsc, tag, expect in states:
             ctx.count('probe-symext-naive-vs-irrep')
-            r1 = gskip(lambda: bool(numqi.entangle.symext.is_ABk_symmetric_ext_naive(rho, dim, kext)[0]))
-            r2 = gskip(lambda: bool(numqi.entangle.is_ABk_symmetric_ext(rho, dim, kext)))
+            r1 = gskip(lambda: vbool(numqi.entangle.symext.is_ABk_symmetric_ext_naive(rho, dim, kext)[0]))
+            r2 = gskip(lambda: vbool(numqi.entangle.is_ABk_symmetric_ext(rho, dim, kext)))
             if SKIP in (r1, r2):
                 continue
             rp = dict(dsc, kext=kext, use_boson=False, use_ppt=False, naive=str(r1), irrep=str(r2))
@@ -1511,7 +1871,7 @@ def probe(ctx):
         for label, dv in (('list', list(dim)), ('ndarray', np.array(dim)), ('np.int64', tuple(np.int64(x) for x in dim)), ('int32 array', np.array(dim, dtype=np.int32))):
             ctx.count('probe-dim-forms')
             for name in ('is_ppt', 'check_reduction_witness', 'is_generalized_ppt'):
-                r = gskip(lambda: bool(getattr(numqi.entangle, name)(rho, dv)))
+                r = gskip(lambda: vbool(getattr(numqi.entangle, name)(rho, dv)))
                 if r == SKIP:
                     continue
                 if r is not True:
@@ -1519,7 +1879,7 @@ def probe(ctx):
                 else:
                     ctx.probe_ok((name, label, dim))
         for he in (1e-8, 1e-12):
-            r = gskip(lambda: bool(numqi.utils.is_positive_semi_definite(rho, shift=1e-7, hermitian_eps=he)))
+            r = gskip(lambda: vbool(numqi.utils.is_positive_semi_definite(rho, shift=1e-7, hermitian_eps=he)))
             if r == SKIP:
                 continue
             if r is not True:
@@ -1530,7 +1890,7 @@ def probe(ctx):
     def batched():
         d2 = (2, 2)
         sts = [make_separable(rng, d2, 2, 'complex')[0], make_separable(rng, d2, 4, 'real')[0], np.asarray(numqi.state.Werner(2, 1.0), dtype=np.complex128)]
-        single = [bool(numqi.entangle.is_ABk_symmetric_ext(x, d2, 2)) for x in sts]
+        single = [vbool(numqi.entangle.is_ABk_symmetric_ext(x, d2, 2)) for x in sts]
         arr = numqi.entangle.is_ABk_symmetric_ext(np.stack(sts), d2, 2)
         lst = numqi.entangle.is_ABk_symmetric_ext(list(sts), d2, 2)
         info = numqi.entangle.is_ABk_symmetric_ext(sts[0], d2, 2, return_info=True)
@@ -1571,7 +1931,7 @@ def probe(ctx):
             if _time.time() - tstart > sdp_budget:
                 break
             rho, desc = make_separable(rng, dim, int(rng.integers(1, 2 * dim[0] * dim[1] + 1)), ['complex', 'basis', 'repeated'][j % 3])
-            r = gskip(lambda: bool(numqi.entangle.is_ABk_symmetric_ext(rho, dim, kext, use_ppt=ppt, use_boson=boson)))
+            r = gskip(lambda: vbool(numqi.entangle.is_ABk_symmetric_ext(rho, dim, kext, use_ppt=ppt, use_boson=boson)))
             ctx.count('probe-symext')
             ran += 1
             if r == SKIP:
@@ -1584,7 +1944,7 @@ def probe(ctx):
     ctx.extra['symext_sdp_runs'] = ran
     ctx.extra['statements_not_proved'] = statements_not_proved(THEOREM_FILES)
     ctx.extra['measured_rounding'] = {k: float(v) for k, v in sorted(meas.items())}
-    T = extract_thresholds()
+    T = extract_thresholds(not ctx.quick())
     slack = dict(ppt=float(-T['isPptEpsDefault']) if T['isPptEpsDefault'] is not None else None,
                  gppt=float(T['gpptThresholdDefault']) if T['gpptThresholdDefault'] is not None else None,
                  swap=float(-T['swapEpsDefault']) if T['swapEpsDefault'] is not None else None)
@@ -1631,7 +1991,7 @@ def check_symext_history(ctx, dim, kext, boson, ppt, rng, steps, tag):
     rp = dict(dsc, kext=kext, use_boson=boson, use_ppt=ppt, history=history)
 
     def verdict():
-        return _sdp_signature(lambda: bool(E.is_ABk_symmetric_ext(rho, dim, kext, use_ppt=ppt, use_boson=boson)))
+        return _sdp_signature(lambda: vbool(E.is_ABk_symmetric_ext(rho, dim, kext, use_ppt=ppt, use_boson=boson)))
     v0, sig0 = verdict()
     if v0 is not True:
         ctx.fail('is_ABk_symmetric_ext:separable-rejected', f'is_ABk_symmetric_ext(kext={kext}, use_boson={boson}, use_ppt={ppt}) returned {v0} for a separable state, dim={dim} [{tag}]', rp)
@@ -1730,7 +2090,7 @@ def search(ctx, hints):
     rng = np.random.default_rng(ctx.np_seed + 99)
     meas = {}
     for k in range(400):
-        dim = PROBE_DIMS[k % len(PROBE_DIMS)]
+        dim = (PROBE_DIMS + PROBE_DIMS_LARGE)[k % len(PROBE_DIMS + PROBE_DIMS_LARGE)]
         rho, desc = make_separable(rng, dim, int(rng.integers(1, 2 * int(np.prod(dim)) + 1)), ['complex', 'real', 'basis', 'repeated', 'parallel'][k % 5])
         check_state(ctx, rho, dim, f'search/{k}', desc, meas)
         if ctx.failures:
@@ -1756,8 +2116,8 @@ def replay(ctx, payload):
             check_symext_history(ctx, dim, rp['kext'], rp['use_boson'], rp['use_ppt'], np.random.default_rng(0), steps, 'replay')
         elif 'kext' in rp:
             import numqi
-            r = guarded(lambda: bool(numqi.entangle.is_ABk_symmetric_ext(rho, dim, rp['kext'], use_ppt=rp['use_ppt'], use_boson=rp['use_boson'])))
-            r1 = guarded(lambda: bool(numqi.entangle.symext.is_ABk_symmetric_ext_naive(rho, dim, rp['kext'])[0])) if 'naive' in rp else r
+            r = guarded(lambda: vbool(numqi.entangle.is_ABk_symmetric_ext(rho, dim, rp['kext'], use_ppt=rp['use_ppt'], use_boson=rp['use_boson'])))
+            r1 = guarded(lambda: vbool(numqi.entangle.symext.is_ABk_symmetric_ext_naive(rho, dim, rp['kext'])[0])) if 'naive' in rp else r
             if 'naive' in rp and r1 != r:
                 ctx.fail(payload.get('key'), f'naive SDP says {r1}, irrep-block SDP says {r}', rp)
             elif 'naive' not in rp and r is not True:
@@ -1766,7 +2126,7 @@ def replay(ctx, payload):
             check_bell_diag(ctx, np.array(rp['weights']))
         elif 'threshold' in rp:
             import numqi
-            r = guarded(lambda: numqi.entangle.is_generalized_ppt(rho, dim, threshold=rp['threshold']))
+            r = guarded(lambda: vbool(numqi.entangle.is_generalized_ppt(rho, dim, threshold=rp['threshold'])))
             if r is not True:
                 ctx.fail(payload.get('key'), f'is_generalized_ppt(threshold={rp["threshold"]}) returned {r}', rp)
         else:
